@@ -121,11 +121,15 @@ Case(c, t, s, dl) ==
      cl |-> Clause("dt", s[1], s[3], dl, want)]
 \* the spellings that write the seconds with k decimals take their time from a menu whose fractions survive the cut
 FracTods == << <<20, 30, 40, 500000>>, <<12, 0, 0, 7000>>, <<1, 2, 3, 123456>>, <<23, 59, 59, 999000>>, <<0, 0, 0, 120000>> >>
+\* the numbers of decimals take turns: two of them per day
+FracSeq == <<1, 2, 3, 4, 5, 7, 8, 9>>
+DayFracTls(o) == {10 + FracSeq[(o % 8) + 1], 10 + FracSeq[((o + 3) % 8) + 1]}
 TodFor(o, i, tl) == IF tl > 10 THEN FracTods[((o + tl) % Len(FracTods)) + 1] ELSE GenTods[i]
 GenCasesNext ==
     LET c == FastYMD(a)
         idx == SetToSeq({<<s, dl>> \in Spellings \X Dialects :
-                             Spellable(c, s[1]) /\ (s[1] \in StringForms \/ dl = (IF a % 2 = 0 THEN "uk" ELSE "us"))}) IN
+                             /\ Spellable(c, s[1]) /\ (s[1] \in StringForms \/ dl = (IF a % 2 = 0 THEN "uk" ELSE "us"))
+                             /\ (s[2] \in FracTls => s[2] \in DayFracTls(a))}) IN
     Emit([k |-> "cases", y |-> c[1], m |-> c[2], d |-> c[3], t |-> GenTods[b],
           cases |-> [i \in 1..Len(idx) |-> Case(c, TodFor(a, b, idx[i][1][2]), idx[i][1], idx[i][2])]])
 
